@@ -59,6 +59,8 @@ PARAMS = {
     "quick":    (["IRCMC_small.cfg"], 300,     60,  22,         90, 45,           3),
     "thorough": (["IRCMC_small.cfg", "IRCMC_deep.cfg"], 3000, 600, 30, 900, 60,   5),
 }
+EDGECFG = {"quick": "IRCMC_edges1.cfg", "thorough": "IRCMC_edges2.cfg"
+}
 
 
 def _parse_tuple_lines(out):
@@ -157,6 +159,42 @@ def run_engine(ctx):
         key = x["e"]["t"] if x["e"]["t"] != "line" else ("S:" if x["e"].get("haspfx") else "") + x["e"].get("cmd", "")
         res["cmds"][key] = res["cmds"].get(key, 0) + 1
 
+    # 3b. transition cover of the bounded model, replayed on the real server
+    t0 = time.time()
+    re_ = ctx.tlc("IRCMC", cfg=EDGECFG[ctx.tier], workers=1, timeout=1800, name="edges", heap="8g")
+    if not re_.ok and not re_.invariant_violated:
+        raise vlib.Inconclusive("IRCMC edge enumeration failed:\n" + re_.out[-2000:])
+    prologues, edges = {}, []
+    for item in _parse_tuple_lines(re_.out):
+        if item.startswith('<<"EDGE"'):
+            m = re.match(r'<<"EDGE", "(.*)">>$', item, re.S)
+            if m:
+                edges.append(json.loads(m.group(1).encode().decode("unicode_escape")))
+        elif item.startswith('<<"PROLOGUE"'):
+            m = re.match(r'<<"PROLOGUE", (\d+), "(.*)">>$', item, re.S)
+            if m:
+                prologues[m.group(1)] = json.loads(m.group(2).encode().decode("unicode_escape"))
+    if not edges or not prologues:
+        raise vlib.Inconclusive("no transitions printed by %s" % EDGECFG[ctx.tier])
+    edge_file = os.path.join(ctx.scratch, "edges.json")
+    with open(edge_file, "w") as fh:
+        json.dump({"prologues": prologues, "edges": edges}, fh)
+    etrace = os.path.join(ctx.scratch, "edgetrace.ndjson")
+    rc, out = ctx.go_test(".", ov, "^TestVerifIRCEdges$", timeout=1500, env={"VERIF_IRC_OUT": etrace, "VERIF_IRC_EDGES": edge_file})
+    if rc != 0 or not os.path.exists(etrace):
+        raise vlib.Inconclusive("IRC edge harness failed (rc=%s):\n%s" % (rc, out[-4000:]))
+    erecs = vlib.read_ndjson(etrace)
+    if not erecs or erecs[-1]["k"] != "end":
+        raise vlib.Inconclusive("IRC edge harness did not finish its trace")
+    res["tlc"]["edges"] = {"cfg": EDGECFG[ctx.tier], "transitions_printed": len(edges), "wall_s": round(time.time() - t0, 1)}
+    # one combined trace: histories first, then the transition cover
+    with open(trace, "w") as fh:
+        for x in recs[:-1] + erecs:
+            fh.write(json.dumps(x, separators=(",", ":")) + "\n")
+    recs = recs[:-1] + erecs
+    steps = [x for x in recs if x["k"] in ("step", "snap")]
+    res["model_transitions_replayed"] = len(edges)
+
     # 4. trace validation
     t0 = time.time()
     rt = ctx.tlc("IRCTrace", cfg="IRCTrace.cfg", workers=1, timeout=1800, files={"irctrace.ndjson": trace},
@@ -219,7 +257,7 @@ def get_engine(ctx):
     os.makedirs(CACHE, exist_ok=True)
     key = _tree_key(ctx.tier, ctx.seed)
     path = os.path.join(CACHE, "irc-%s.json" % key)
-    lock = open(os.path.join(CACHE, "irc.lock"), "w")
+    lock = open(os.path.join(CACHE, "irc-%s.lock" % key), "w")
     fcntl.flock(lock, fcntl.LOCK_EX)
     try:
         if os.path.exists(path) and time.time() - os.path.getmtime(path) < 3600 and not os.environ.get("VERIF_NOCACHE"):
@@ -228,8 +266,12 @@ def get_engine(ctx):
             res["cached"] = True
             return res
         for f in os.listdir(CACHE):
-            if f.startswith("irc-") and time.time() - os.path.getmtime(os.path.join(CACHE, f)) > 3600:
-                os.unlink(os.path.join(CACHE, f))
+            if f.startswith("irc-") and f != os.path.basename(lock.name) and \
+                    time.time() - os.path.getmtime(os.path.join(CACHE, f)) > 7200:
+                try:
+                    os.unlink(os.path.join(CACHE, f))
+                except OSError:
+                    pass
         res = run_engine(ctx)
         res["cached"] = False
         with open(path + ".tmp", "w") as fh:
@@ -324,6 +366,7 @@ def report(ctx, pid, extra_note=None):
     ctx.cov["events_in_model_alphabet"] = res["steps_sup"]
     ctx.cov["events_conforming_to_Step"] = res.get("conforming", 0)
     ctx.cov["model_programs_replayed"] = res["tlc"]["sim"]["programs"] + res["scenarios"]
+    ctx.cov["model_transitions_replayed"] = res.get("model_transitions_replayed", 0)
     ctx.cov["tlc_runs"] = res["tlc"]
     ctx.cov["commands_exercised"] = res["cmds"]
     ctx.cov["engine_cached"] = res["cached"]
